@@ -1000,9 +1000,14 @@ Proof.
   eapply wp_bind_fr; [intros s' ev'; apply wp_when; intros _; [apply set_state_closed_frames|apply fr_refl]|].
   intros _ s1 ev1 F1. assert (HI1 : sinv C W s1 ev1) by (sinv_fr HI). clear HI F1 s ev. wp_prims.
   apply (wp_bind_spec _ _ _ _ (fun _ s' ev' => sinv C W s' ev')).
-  { apply wp_when; intros _; [|exact HI1].
-    use_spec (queue_fin_spec C W s1 ev1 HI1). intros _ s2 ev2 (HI2 & _). apply attempt_send_spec. exact HI2. }
-  cbv beta. intros _ s ev HI. clear HI1 s1 ev1. wp_prims.
+  { assert (Hq : wp (queue_fin_message;;; attempt_send sfFin now;;; ret true) s1 ev1 (fun _ s' ev' => sinv C W s' ev')).
+    { use_spec (queue_fin_spec C W s1 ev1 HI1). intros _ s2 ev2 (HI2 & _).
+      use_spec (attempt_send_spec C W sfFin now s2 ev2 HI2). intros _ s3 ev3 HI3. wp_prims. exact HI3. }
+    destruct (_ && _); [|wp_prims; exact HI1]. destruct (last_seg _) as [g|]; [|exact Hq]. destruct (_ && _); [|exact Hq].
+    use_spec (transmit_spec C W (length (slist s1) - 1)%nat now s1 ev1 HI1). intros st s2 ev2 (HI2 & _). destruct (negb (st =? 0)).
+    - use_spec (closedown_spec C W st true now s2 ev2 HI2). intros _ s3 ev3 HI3. wp_prims. exact HI3.
+    - wp_prims. exact HI2. }
+  cbv beta. intros r0 s ev HI. clear HI1 s1 ev1. destruct (negb r0); [wp_prims; exists C; exact HI|]. wp_prims.
   apply (wp_bind_spec _ _ _ _ (fun _ s' ev' => sinv C W s' ev')).
   { destruct (_ && _); [|wp_prims; exact HI]. destruct (slist s); [apply wp_fault|].
     use_spec (transmit_spec C W 0%nat now s ev HI). intros st s1 ev1 (HI1 & _).
